@@ -26,7 +26,8 @@ Lemma c15_dbg_alloc_cases page sT n next : 1 <= page -> 2 * page <= c15_size_max
   (n <= c15_dbg_limit page sT /\
    exists ai gp, c15_dbg_allocate_gen true page 0 sT n (c15_sys_mmap next) = C15Ok (ai, gp) /\
      d_type ai = 0 /\ d_page_ptr ai = next /\ d_capacity ai = n * sT /\ d_size ai = n /\ d_pages ai = n * sT / page + 2 /\
-     d_ptr ai = next + page - (n * sT) mod page /\ d_ptr ai + n * sT = gp /\ d_pages ai * page <= c15_size_max).
+     d_ptr ai = next + page - (n * sT) mod page /\ d_ptr ai + n * sT = gp /\ d_pages ai * page <= c15_size_max /\
+     n * sT < c15_sys_limit).
 Proof.
   intros Hp H2p HsT.
   destruct (c15_debug_layout page 0 sT n (c15_sys_mmap next) Hp H2p HsT) as [L1 L2].
@@ -38,9 +39,13 @@ Proof.
   unfold c15_sys_mmap in Em.
   destruct ((0 <? (n * sT / page + 2) * page) && ((n * sT / page + 2) * page <? c15_sys_limit) &&
             (next + (n * sT / page + 2) * page <=? 2 ^ 64)) eqn:Ec; [|discriminate].
-  inversion Em; subst pp. apply andb_true_iff in Ec. destruct Ec as [_ Ec]. apply N.leb_le in Ec.
+  inversion Em; subst pp. apply andb_true_iff in Ec. destruct Ec as [Ec0 Ec]. apply N.leb_le in Ec.
+  apply andb_true_iff in Ec0. destruct Ec0 as [_ Elim]. apply N.ltb_lt in Elim.
   destruct (LS next eq_refl Ec) as (ai & gp & Ea & Ht & Hpp & Hcap & Hsz & Hpgs & Hptr & _ & Hend & _).
-  exists ai, gp. rewrite Hpgs. repeat split; assumption.
+  exists ai, gp. rewrite Hpgs. repeat split; try assumption.
+  assert (Hpne : page <> 0) by lia.
+  pose proof (N.div_mod (n * sT) page Hpne) as Hdm. pose proof (N.mod_upper_bound (n * sT) page Hpne) as Hub.
+  set (q := n * sT / page) in *. set (r := (n * sT) mod page) in *. clearbody q r. nia.
 Qed.
 
 Lemma c15_remove_nth_map {A B} (f : A -> B) i l : c15_remove_nth i (map f l) = map f (c15_remove_nth i l).
@@ -75,7 +80,7 @@ Section C15DbgHistory.
        c15_dbg_inv page st' /\ length (ds_live st') = S (length (ds_live st)) /\ c15_spec_dbg_servable page sT n = true).
   Proof.
     intros I. cbn [c15_dbg_step].
-    destruct (c15_dbg_alloc_cases page sT n (ds_next st) Hp H2p HsT) as [E|(Hn & ai & gp & E & Ht & Hpp & Hcap & Hsz & Hpgs & Hptr & Hend & Hpg)].
+    destruct (c15_dbg_alloc_cases page sT n (ds_next st) Hp H2p HsT) as [E|(Hn & ai & gp & E & Ht & Hpp & Hcap & Hsz & Hpgs & Hptr & Hend & Hpg & Hlim)].
     - left. rewrite E. reflexivity.
     - right. rewrite E. eexists. split; [|split; [|split]].
       + f_equal. destruct (c15_debug_offset page sT aT n (ds_next st) Hp (di_next _ _ I)) as [Ho _].
@@ -96,10 +101,13 @@ Section C15DbgHistory.
         * rewrite map_app, (di_live _ _ I). cbn. unfold c15_dbg_view. rewrite Hsz. reflexivity.
         * apply Forall_app. split; [apply (di_type _ _ I)|]. constructor; [exact Ht|constructor].
       + cbn [ds_live]. rewrite app_length. cbn. lia.
-      + unfold c15_spec_dbg_servable. apply N.leb_le. unfold c15_dbg_limit in Hn.
-        assert (n * sT <= c15_size_max - 2 * page).
-        { etransitivity; [apply N.mul_le_mono_r; exact Hn|]. rewrite N.mul_comm. apply N.mul_div_le. lia. }
-        lia.
+      + unfold c15_spec_dbg_servable, c15_spec_unservable, c15_unservable_bytes. unfold c15_sys_limit in Hlim.
+        apply andb_true_iff. split.
+        * apply N.leb_le. unfold c15_dbg_limit in Hn.
+          assert (n * sT <= c15_size_max - 2 * page).
+          { etransitivity; [apply N.mul_le_mono_r; exact Hn|]. rewrite N.mul_comm. apply N.mul_div_le. lia. }
+          lia.
+        * apply negb_true_iff. apply N.leb_gt. exact Hlim.
   Qed.
 
   Lemma c15_dbg_step_free_ok st i : c15_dbg_inv page st -> (i < length (ds_live st))%nat ->
